@@ -31,7 +31,8 @@ quantifier-free and takes milliseconds.
                                            invariant.{key_order, seen_values_are_recorded, seen_keys_are_present, string_types_only_*}.{on_entry,preserved}
                                          scenarios: hive+metadata, hive without metadata (homogeneous levels), drill (homogeneous), drill with levels mixing
                                          re-typable and plain text (refuted-known), hive / drill with '=' inside a value text (refuted-known: layout misread)
-  core.read_row_group (partition block)  read_row_group[<scenario>].* : ONE arbitrary row group, ONE arbitrary partition column: partition_level_found,
+  core.read_row_group (partition block)  (every family runs in its own try/except: a construct that is not modelled makes THAT family `<family>.out_of_reach`)
+                                         read_row_group[<scenario>].* : ONE arbitrary row group, ONE arbitrary partition column: partition_level_found,
                                          value_is_parsed_from_own_path_level_of_that_column (FIRST matching level == the column's level; no other row
                                          group's path), category_found, assigned_to_the_column_itself, whole_slice_of_the_column_assigned_once
   api.ParquetFile.partition_meta,        partition_meta keyed by field_name; AST obligations: every paths_to_cats / read_row_group call site gets the
@@ -687,10 +688,9 @@ def pose_s(res, timeout, name, hyps, goal, detail, model_terms=()):
 
 
 def abstract_string_ufs(fs):
-    """replace every application of an uninterpreted function of sort String by a fresh constant (same term -> same constant): a
-    WEAKER set of constraints (congruence of those functions is dropped) the string solver copes with; only used to FIND candidate
-    values - a candidate is kept only if the full constraints are satisfiable with it (see bounded_counter_model)"""
-    apps, seen = {}, set()
+    """replace every application of an uninterpreted function of sort String by a fresh constant (same term -> same constant,
+    innermost first).  Returns (formulas, [(abstracted application with abstracted arguments, its constant)])"""
+    apps, seen = [], set()
 
     def walk(t):
         if t.get_id() in seen:
@@ -699,56 +699,118 @@ def abstract_string_ufs(fs):
         for c in t.children():
             walk(c)
         if z3.is_app(t) and t.num_args() > 0 and t.decl().kind() == z3.Z3_OP_UNINTERPRETED and t.sort() == S:
-            apps[t.get_id()] = t
+            apps.append(t)                  # post-order: inner applications first
     for f in fs:
         walk(f)
-    order = sorted(apps.values(), key=lambda t: -len(t.sexpr()))
-    pairs = [(t, z3.String(f"abs!{k}")) for k, t in enumerate(order)]
-    out = fs
-    for t, c in pairs:
-        out = [z3.substitute(f, (t, c)) for f in out]
+    pairs, out = [], list(fs)
+    for k, t in enumerate(apps):
+        t2 = t
+        for pr in pairs:                                       # its arguments with the inner applications already abstracted
+            t2 = z3.substitute(t2, pr)
+        c = z3.String(f"abs!{k}")
+        pairs.append((t2, c))
+    for t2, c in pairs:                                        # innermost first: outer terms are rewritten step by step into the t2 shapes
+        out = [z3.substitute(f, (t2, c)) for f in out]
     return out, pairs
 
 
-def bounded_counter_model(cs, inst, neg_goal, names, timeout, subst=()):
-    """UNKNOWN in general -> the same query on a bounded instance `inst` of the scenario: candidate texts from the abstraction above
-    (after replacing the instance's defined terms `subst` by their explicit values), then the FULL constraints with those texts fixed.
-    Returns (model, secs) or (None, secs); never proves anything"""
+def _py_text_functions():
+    """the Python meaning of the uninterpreted text functions on CONCRETE texts (a model of their ASSUMED facts): used only to evaluate a
+    bounded instance whose texts are all literals"""
+    def piece(sep):
+        return lambda s_, k: s_.split(sep)[k] if 0 <= k < len(s_.split(sep)) else None
+
+    def pre(s_, k):
+        ps = s_.split("/")
+        return ("/".join(ps[:k]) + ("/" if k > 0 else "")) if 0 <= k < len(ps) else None
+
+    def post(s_, k):
+        ps = s_.split("/")
+        return (("/" + "/".join(ps[k + 1:])) if k < len(ps) - 1 else "") if 0 <= k < len(ps) else None
+    return {"slash_piece": piece("/"), "equals_piece": piece("="), "number_of_slash_pieces": lambda s_: len(s_.split("/")),
+            "number_of_equals_pieces": lambda s_: len(s_.split("=")), "text_before_last_slash": lambda s_: s_.rsplit("/", 1)[0] if "/" in s_ else None,
+            "text_before_first_occurrence": lambda s_, p_: s_.split(p_, 1)[0] if p_ and p_ in s_ else None,
+            "text_after_first_occurrence": lambda s_, p_: s_.split(p_, 1)[1] if p_ and p_ in s_ else None,
+            "text_before_slash_piece": pre, "text_after_slash_piece": post,
+            "replace_backslash_by_slash": lambda s_: s_.replace("\\", "/"), "rstrip_slash": lambda s_: s_.rstrip("/"),
+            "lstrip_slash": lambda s_: s_.lstrip("/"), "strip_slash": lambda s_: s_.strip("/"), "lower": lambda s_: s_.lower()}
+
+
+def concretize(fs):
+    """evaluate, innermost first, every application of a text function whose arguments are literals"""
+    table = _py_text_functions()
+    for _ in range(12):
+        fs = [z3.simplify(f) for f in fs]
+        found, seen = {}, set()
+
+        def walk(t):
+            if t.get_id() in seen:
+                return
+            seen.add(t.get_id())
+            for c in t.children():
+                walk(c)
+            if z3.is_app(t) and t.num_args() > 0 and t.decl().name() in table and t.get_id() not in found:
+                args = []
+                for a_ in t.children():
+                    if z3.is_string_value(a_):
+                        args.append(a_.as_string())
+                    elif z3.is_int_value(a_):
+                        args.append(a_.as_long())
+                    else:
+                        return
+                v = table[t.decl().name()](*args)
+                if v is not None:
+                    found[t.get_id()] = (t, z3.IntVal(v) if isinstance(v, int) else sv(v))
+        for f in fs:
+            walk(f)
+        if not found:
+            break
+        for pr in found.values():
+            fs = [z3.substitute(f, pr) for f in fs]
+    return fs
+
+
+def enumerated_counter_model(cs, inst, neg_goal, names, candidates, timeout, presub=(), budget=40.0):
+    """UNKNOWN in general -> the same query on a bounded instance `inst` of the scenario with the free texts `names` fixed to each tuple
+    of `candidates` in turn: every text is then a literal and the uninterpreted text functions are EVALUATED with their Python meaning
+    (which satisfies their ASSUMED facts).  Applications that remain are replaced by constants and a model is accepted only after the ACKERMANN check - two applications of the same function with
+    equal arguments in the model have equal values - so it extends to a model of the original constraints: a genuine counter-model.
+    PROVED never comes from here.  Returns (candidate, model, secs)"""
     t0 = time.time()
-    full = list(cs) + list(inst) + [neg_goal]
-    weak = full
-    for pair in subst:                 # one at a time: later pairs may occur inside terms created by earlier ones
-        weak = [z3.substitute(f, pair) for f in weak]
-    weak, _ = abstract_string_ufs([z3.simplify(f) for f in weak])
-    n_first = len(inst) + 1
-    rest = weak[:len(cs)]
-    word_eqs = [c for c in rest if "Concat" in str(c) and "number_of_" not in str(c)]
-    ids = {c.get_id() for c in word_eqs}
-    # the instance and the negated goal first, then the word equations (what the texts ARE), then everything else
-    weak = weak[len(cs):] + word_eqs + [c for c in rest if c.get_id() not in ids]
-    st, m, _ = solve(weak, min(timeout, 3000))
-    if st == UNKNOWN:
-        # greedy weakening: add the constraints one by one, leave out those that make the solver give up (dropping hypotheses can only add
-        # models; the candidate is validated against ALL constraints below)
-        kept = []
-        for k, c in enumerate(weak):
-            sol = z3.Solver()
-            sol.set("timeout", 1500)
-            sol.add(*kept, c)
-            r = sol.check()
-            if r == z3.sat:
-                kept.append(c)
-                m = sol.model()
-            elif r == z3.unsat or k < n_first:
-                return None, time.time() - t0          # the instance itself is contradictory / undecidable here
-            if time.time() - t0 > 6 * timeout / 1000:
+    base = list(cs) + list(inst) + [neg_goal]
+    for cand in candidates:
+        if time.time() - t0 > budget:
+            break
+        fs = base
+        for pr in list(presub) + [(x, sv(v)) for x, v in zip(names, cand)]:
+            fs = [z3.substitute(f, pr) for f in fs]
+        # a defined text of the instance (`application == explicit text`) is replaced by its value everywhere, repeatedly
+        for _ in range(4):
+            fs = [z3.simplify(f) for f in fs]
+            defs = [(f.arg(0), f.arg(1)) for f in fs if z3.is_eq(f) and z3.is_string_value(f.arg(1)) and z3.is_app(f.arg(0)) and f.arg(0).num_args() > 0
+                    and f.arg(0).decl().kind() == z3.Z3_OP_UNINTERPRETED]
+            defs += [(f.arg(1), f.arg(0)) for f in fs if z3.is_eq(f) and z3.is_string_value(f.arg(0)) and z3.is_app(f.arg(1)) and f.arg(1).num_args() > 0
+                     and f.arg(1).decl().kind() == z3.Z3_OP_UNINTERPRETED]
+            if not defs:
                 break
-        st = REFUTED if len(kept) >= n_first else UNKNOWN
-    if st != REFUTED or m is None:
-        return None, time.time() - t0
-    fixed = [x == m.eval(x, model_completion=True) for x in names]
-    st, m2, _ = solve(full + fixed, timeout)
-    return (m2 if st == REFUTED else None), time.time() - t0
+            for pr in defs:
+                fs = [f if (z3.is_eq(f) and f.arg(0).eq(pr[0]) and f.arg(1).eq(pr[1])) else z3.substitute(f, pr) for f in fs]
+        weak, pairs = abstract_string_ufs(concretize(fs))
+        sol = z3.Solver()
+        sol.set("timeout", 3000)
+        sol.add(*weak)
+        if sol.check() != z3.sat:
+            continue
+        m = sol.model()
+        ok = True
+        for (ta, ca), (tb, cb) in itertools.combinations(pairs, 2):
+            if ta.decl().eq(tb.decl()) and all(m.eval(x, model_completion=True).eq(m.eval(y, model_completion=True)) for x, y in zip(ta.children(), tb.children())) \
+                    and not m.eval(ca, model_completion=True).eq(m.eval(cb, model_completion=True)):
+                ok = False
+                break
+        if ok:
+            return cand, m, time.time() - t0
+    return None, None, time.time() - t0
 
 
 def trace(res, name, ok, detail, info=None):
@@ -2804,7 +2866,22 @@ def run_read_row_group(ctx, funcs, timeout, scheme, cats_meta, passed_meta):
         if a.s == "dir%i" and isinstance(b, (PyI, PyB)):
             return Custom(TextV(z3.Concat(sv("dir"), DEC(eng.as_int(b)))))
         return None
-    handlers = {"val_to_num": h_val_to_num_cut, "str%": h_strmod, "str": h_str}
+    def h_int(eng, p, args, kw, node):
+        """int(<text>): ASSUMED int('%i' % n) == n (the decimal text of n parses back to n); ValueError for a text int() rejects"""
+        x = text_of(args[0]) if args else None
+        if x is None or len(args) != 1 or kw:
+            raise Unsupported("int() of a non-text")
+        if solve(list(p.pc) + [z3.Length(DEC(R.kW)) > 0, x != DEC(R.kW)], 3000)[0] == PROVED:
+            return [(p, PyI(R.kW))]             # the text IS the decimal text of the column's position
+        p.axioms += [z3.Implies(x == DEC(R.kW), z3.And(INT_OK(x), PARSE_INT(x) == R.kW)), z3.Length(DEC(R.kW)) > 0]
+        ok, bad = p.fork(INT_OK(x)), p.fork(z3.Not(INT_OK(x)))
+        out = []
+        if eng.feasible(ok):
+            out.append((ok, PyI(PARSE_INT(x))))
+        if eng.feasible(bad):
+            out += raised(bad, "ValueError")
+        return out
+    handlers = {"val_to_num": h_val_to_num_cut, "str%": h_strmod, "str": h_str, "int": h_int}
     eng = RREng(funcs=funcs, handlers=handlers, opaque_calls=True)
     p = Path()
     c = R.kW
@@ -2864,21 +2941,27 @@ def run_read_row_group(ctx, funcs, timeout, scheme, cats_meta, passed_meta):
         st_, m, secs = solve(cs + [z3.Not(ix.v == R.VALNUM(txt, mid_read))], timeout)
         if st_ == UNKNOWN and scheme == "hive":
             # undecided in general: the SAME query on a bounded instance of the scenario (two directory levels, the second one the
-            # column's, every text at most 4 characters); a model there is a genuine counter-model, PROVED never comes from here
+            # column's), the four free texts enumerated over a small pool; a model there is a genuine counter-model (backend note in the
+            # model), PROVED never comes from here
             k0, k1, t0, t1 = R.KEYN(0), R.KEYN(1), R.TXT(R.j0, 0), R.TXT(R.j0, 1)
             fp = R.PATHT(R.j0)
             inst = [R.D == 2, c == 1, fp == z3.Concat(k0, EQ, t0, SL, k1, EQ, t1, sv("/part.0.parquet")), k0 != k1,
                     PIECE_PRE(fp, 1) == z3.Concat(k0, EQ, t0, SL), PIECE_POST(fp, 1) == sv("/part.0.parquet")]
             for x in (k0, k1, t0, t1):
                 inst += [z3.Length(x) >= 1, z3.Length(x) <= 4, z3.Not(z3.Contains(x, SL)), z3.Not(z3.Contains(x, EQ))]
-            e_fp, e_l1 = z3.Concat(k0, EQ, t0, SL, k1, EQ, t1, sv("/part.0.parquet")), z3.Concat(k1, EQ, t1)
-            sub = [(c, z3.IntVal(1)), (R.D, z3.IntVal(2)), (fp, e_fp)]
-            sub += [(PIECE_PRE(e_fp, z3.IntVal(1)), z3.Concat(k0, EQ, t0, SL)), (PIECE_POST(e_fp, z3.IntVal(1)), sv("/part.0.parquet")),
-                    (PIECE["/"](e_fp, z3.IntVal(1)), e_l1), (PIECE["/"](DIRNAME(e_fp), z3.IntVal(1)), e_l1),
-                    (PIECE["="](e_l1, z3.IntVal(0)), k1), (PIECE["="](e_l1, z3.IntVal(1)), t1)]
-            m2, secs2 = bounded_counter_model(cs, inst, z3.Not(ix.v == R.VALNUM(txt, mid_read)), (k0, k1, t0, t1), timeout, sub)
-            if m2 is not None:
-                st_, m, secs = REFUTED, m2, secs + secs2
+            names_pool = ("a", "b", "ab", "ba", "aa")       # distinct names that are prefixes / suffixes / substrings of each other or unrelated
+            cands = [(x, y, v, w) for x in names_pool for y in names_pool if x != y for v, w in (("1", "2"), ("2", "1"))]
+            cand, m2, secs2 = enumerated_counter_model(cs, inst, z3.Not(ix.v == R.VALNUM(txt, mid_read)), (k0, k1, t0, t1), cands, timeout,
+                                                       presub=[(c, z3.IntVal(1)), (R.D, z3.IntVal(2))])
+            secs += secs2
+            if cand is not None:
+                res.add(P + "value_is_parsed_from_own_path_level_of_that_column", REFUTED,
+                        {"counter-model by bounded instantiation (two levels, texts enumerated)": True,
+                         "path": f"{cand[0]}={cand[2]}/{cand[1]}={cand[3]}/part.0.parquet", "column": cand[1], "value text of its level": cand[3],
+                         "note": "the value the code parses for the column is not the text of the column's own level"}, secs, "z3",
+                        "the category is val_to_num(<value text of the directory level whose key is the column, in THIS row group's file_path>, "
+                        "partition_meta.get(column)): no other row group's path, no other level")
+                continue
         res.add(P + "value_is_parsed_from_own_path_level_of_that_column", st_,
                 {"path": mval(m, R.PATHT(R.j0)), "column": mval(m, key), "its level": mval(m, R.lvl(R.j0, c)),
                  "text before that level": mval(m, PIECE_PRE(R.PATHT(R.j0), c)), "value text of the level": mval(m, txt)} if m is not None else None, secs, "z3",
@@ -3339,6 +3422,12 @@ ASSUMED = [
     "group, names/texts without backslash); the part file name is not itself 'name=...' with name a partition column; the paths are texts "
     "(multi-file dataset: no None file_path); val_to_num is used through its lemmas (cuts): text-like metadata returns the text and never "
     "raises, non-text metadata never returns a str, the writer's texts parse under their column's metadata (roundtrip lemmas), no metadata never raises",
+    "str.split(sep, 1) for a non-empty sep: [s] when sep does not occur, else [text before the FIRST occurrence, text after it] (first: sep does "
+    "not occur in before + sep-without-its-last-character); s[k] is the one-character text at k; int('%i' % n) == n.  Positional detail of "
+    "split('/') (added only when the code searches the path text itself): level i sits between what precedes it (empty for i == 0, else ending "
+    "with '/') and '/' + the rest; names and value texts contain no '/'.  Bounded instantiation (only after the general query is UNDECIDED, only "
+    "to find a counter-model, never to prove): two directory levels, names from {a, b, ab, ba, aa}, the text functions evaluated with their "
+    "Python meaning on the literals",
     "loop exits: a loop that completed did not raise in any iteration; raising paths of the body whose branch conditions do not depend on the "
     "loop-carried state are excluded at the exit for the witness member (universal fact instantiated at the witness)",
 ]
